@@ -273,9 +273,19 @@ pub fn check_witnesses(prop: &str, findings: &Findings, replay_sub: &str) -> (Ve
     let mut lines = vec![];
     let mut viol = vec![];
     let mut report = vec![];
-    for f in findings.findings.iter().filter(|f| f.property == prop) {
+    // all witnesses replay concurrently, each in its own fresh process
+    let selected: Vec<&Finding> = findings.findings.iter().filter(|f| f.property == prop).collect();
+    let handles: Vec<_> = selected
+        .iter()
+        .map(|f| {
+            let path = format!("{}/{}", VERIF_DIR, f.witness);
+            let sub = replay_sub.to_string();
+            std::thread::spawn(move || run_child(&[&sub, &path]))
+        })
+        .collect();
+    let results: Vec<(i32, String)> = handles.into_iter().map(|h| h.join().expect("witness thread")).collect();
+    for (f, (code, out)) in selected.into_iter().zip(results.into_iter()) {
         let path = format!("{}/{}", VERIF_DIR, f.witness);
-        let (code, out) = run_child(&[replay_sub, &path]);
         let reproduced = code == 1 && out.contains("REPRODUCED");
         report.push(json!({"id": f.id, "status": f.status, "witness": f.witness, "reproduced": reproduced}));
         match (f.status.as_str(), reproduced) {
